@@ -65,6 +65,29 @@ impl<'a> CountRead<'a> {
     }
 }
 
+impl CountRead<'_> {
+    /// a deterministic, input-dependent coin: which spelling of the same call is used for this byte string
+    pub fn via_wrapper(&self) -> bool {
+        self.data.iter().fold(0u32, |a, b| a.wrapping_mul(31).wrapping_add(*b as u32)).count_ones() % 2 == 1
+    }
+}
+
+/// `deserialize_with_mode(c, val)` or, for about half of the byte strings, the convenience method documented as its
+/// synonym (`deserialize_compressed`, `deserialize_compressed_unchecked`, `deserialize_uncompressed`,
+/// `deserialize_uncompressed_unchecked`) — the spelling most callers use.
+pub fn deser<T: ark_serialize::CanonicalDeserialize, X>(rd: &mut CountRead<'_>, c: ark_serialize::Compress, val: ark_serialize::Validate) -> Result<T, ark_serialize::SerializationError> {
+    use ark_serialize::{Compress, Validate};
+    if !rd.via_wrapper() {
+        return T::deserialize_with_mode(rd, c, val);
+    }
+    match (c, val) {
+        (Compress::Yes, Validate::Yes) => T::deserialize_compressed(rd),
+        (Compress::Yes, Validate::No) => T::deserialize_compressed_unchecked(rd),
+        (Compress::No, Validate::Yes) => T::deserialize_uncompressed(rd),
+        (Compress::No, Validate::No) => T::deserialize_uncompressed_unchecked(rd),
+    }
+}
+
 impl std::io::Read for CountRead<'_> {
     fn read(&mut self, buf: &mut [u8]) -> std::io::Result<usize> {
         let n = buf.len().min(self.data.len() - self.pos);
